@@ -205,6 +205,17 @@ def first_guard(fn: ast.FunctionDef) -> Optional[Guard]:
 
 def classify_guard(test: ast.expr, negated: bool) -> Optional[Guard]:
     """Classify `not isinstance(x, C)` / `expr.decl().kind() != K` / `not z3.is_x(e)` / ..."""
+    # conjunction of negated z3 predicates: `not z3.is_a(e) and not z3.is_b(e)` (responsible for a or b)
+    if negated and isinstance(test, ast.BoolOp) and isinstance(test.op, ast.And):
+        preds = []
+        for v in test.values:
+            if isinstance(v, ast.UnaryOp) and isinstance(v.op, ast.Not) and isinstance(v.operand, ast.Call) and (call_name(v.operand) or "").startswith("z3.is_"):
+                preds.append(call_name(v.operand))
+            else:
+                preds = None
+                break
+        if preds:
+            return Guard("z3pred", tuple(sorted(preds)), test)
     t = test
     neg = negated
     if isinstance(t, ast.UnaryOp) and isinstance(t.op, ast.Not):
